@@ -280,8 +280,14 @@ def run_check(prop_cls, tier, seed, replay=None):
     tw = TraceWriter(prop.wd, chunk=getattr(prop, "chunk", 20000))
     bes = [backend.get(b) for b in prop.backends]
     n_scn = 0
+    from . import rejects
+    rfam = getattr(prop, "refusal_family", None)
     if replay is not None:
         scn_iter = [replay["scn"]]
+    elif rfam:
+        # calls from the refusal table of API.tla (Drift_Refusal: model drift, never a verdict)
+        import itertools
+        scn_iter = itertools.chain(prop.scenarios(), rejects.scenarios(rfam, random.Random(seed + 4242), 12 if tier == "thorough" else 4))
     else:
         scn_iter = prop.scenarios()
     t1 = time.time()
@@ -298,7 +304,7 @@ def run_check(prop_cls, tier, seed, replay=None):
             if scn.get("pkg") and scn["pkg"] != be.name:
                 continue
             try:
-                recs = prop.execute(scn, be)
+                recs = rejects.execute(scn, be) if scn.get("k") == "call" and "api" in scn else prop.execute(scn, be)
             except MachineryError:
                 raise
             except Exception as e:     # a driver bug, not a verdict
